@@ -1,16 +1,22 @@
 SPEC = {
-    "lean_modules": ["AM.Props.C10"],
+    "lean_modules": ["AM.Props.C10", "AM.Props.C19"],
     "theorems": [
         "AM.Nflog.merge_monotone", "AM.Nflog.merge_refuses_expired", "AM.Nflog.merge_idem",
         "AM.Nflog.merge_dup", "AM.Nflog.merge_result", "AM.Nflog.merge_comm", "AM.Nflog.fold_merge_perm",
         "AM.Nflog.gc_spec", "AM.Nflog.gc_keeps_unexpired", "AM.Nflog.gc_drops_expired",
         "AM.Nflog.query_spec", "AM.Nflog.log_spec", "AM.Nflog.data_preserved", "AM.Nflog.decodeBatch_last_wins",
         "AM.Nflog.fold_merge_newest", "AM.Nflog.fold_merge_from_offers", "AM.Nflog.mergeBatch_fst", "AM.Nflog.foldl_merge_ge",
+        # the gossip layer in front of Log.Merge
+        "AM.Gossip.full_state_superset", "AM.Gossip.mergeRemote_covers", "AM.Gossip.bad_part_does_not_block_others", "AM.Gossip.unknown_key_inert", "AM.Gossip.broadcast_routed_once",
     ],
     "engines": [
         {"name": "nflog", "pkg": "./nflog", "timeout_quick": 90, "search_cases": 30000},
         # real goroutines, real time: a Merge racing a local Log of the same key; Maintenance after a failed rename
         {"name": "nflograce", "pkg": "./nflograce", "search_cases": 30, "timeout_quick": 300},
+        # "every entry received ... reaches the log": the gossip layer in front of Log.Merge (delegate.MergeRemoteState / NotifyMsg), C19's engine:
+        # a part of a known state key is merged whatever else the batch carries (unknown keys, parts that fail to decode)
+        {"name": "gossip", "pkg": "./gossip", "search_cases": 6000, "quick_cases": 600,
+         "only": ["full_state_superset", "bad_part_does_not_block_others", "unknown_key_inert", "broadcast_routed_once"]},
     ],
     "rule": "random op sequences (log/merge batch 1-4/gc/query/snapshot+reload) on two real nflog.Log under synctest virtual time, "
             "5 state keys, instants on a 1 s grid so equal timestamps and expiry boundaries are frequent; a case is non-trivial when it "
